@@ -291,6 +291,7 @@ type pipeSpec struct {
 	// more than one frame of the writer, so that the writer sends frames (and the receiver
 	// acknowledges them) while PushMetrics is still writing the batch
 	largePoints, largePad int
+	largeBytes            bool // the pad is a bytes attribute (not dictionary encoded)
 	// cancel: goroutine 0 keeps the exporter busy with large pushes; the other goroutines push small
 	// batches whose context is cancelled a few milliseconds after the call starts. A push that
 	// returns an error is RETRIED with a fresh context, as a collector pipeline does: an export
@@ -357,7 +358,7 @@ func runPipelineCase(name string, sp pipeSpec, seed uint64) *caseOut {
 					tag := fmt.Sprintf("e%d-g%d-p%d", e, g, p)
 					md := genMetrics(r, tag, 1+r.Intn(sp.maxPoints))
 					if sp.largePoints > 0 && p == sp.pushes/2 {
-						md = genMetricsPad(r, tag, sp.largePoints, sp.largePad)
+						md = genMetricsPadKind(r, tag, sp.largePoints, sp.largePad, sp.largeBytes)
 					}
 					nstale := 0
 					if sp.stale && r.Intn(2) == 0 {
@@ -718,6 +719,18 @@ func runC19(want func(string) bool) {
 		comp := []string{"none", "zstd"}[k%2]
 		add(fmt.Sprintf("pipe-large-%d", k), pipeSpec{exporters: 1, compression: comp, goroutines: 1, pushes: 5, maxPoints: 8, pause: aroundFlush,
 			largePoints: 30000 + r.Intn(5000), largePad: 700 + r.Intn(300)})
+	}
+	for k := 0; k < 2*mult; k++ {
+		// the same with MANY SMALL points (distinct short BYTES attribute values, which are not
+		// dictionary encoded: the frame grows, not the dictionaries, whose limit would end it first): full frames whose size
+		// is as close to the writer's frame size limit as a frame gets - the limit is soft, the
+		// record that crosses it is small here - so the slack between that limit and what ONE gRPC
+		// message may carry (the receiver's server takes 4 MiB) is what decides delivery
+		// (between one and two full frames: the push that fills the first frame is accepted, the
+		// remainder waits for the flusher)
+		comp := []string{"none", "zstd"}[k%2]
+		add(fmt.Sprintf("pipe-manysmall-%d", k), pipeSpec{exporters: 1, compression: comp, goroutines: 1, pushes: 3, maxPoints: 8, pause: aroundFlush,
+			largePoints: 50000 + r.Intn(20000), largePad: 40 + r.Intn(30), largeBytes: true})
 	}
 	runCases(4, jobs)
 }
